@@ -188,6 +188,7 @@ type Parser struct {
 	path      string
 	prefix    string
 	currFunc  string
+	importing []string            // Files which are currently being parsed (used to detect import cycles).
 	usedFuncs map[string][]string // Stores which function (key) calls which functions (values).
 }
 
@@ -210,6 +211,11 @@ func (p *Parser) parse(path string, imported bool) (Program, error) {
 			return Program{}, err
 		}
 		path = pathTemp
+	}
+
+	// Make sure the file doesn't (indirectly) import itself.
+	if slices.Contains(p.importing, path) {
+		return Program{}, fmt.Errorf(`import cycle detected at "%s"`, path)
 	}
 
 	// Make sure path exists.
@@ -701,6 +707,7 @@ func (p *Parser) evaluateImports(ctx context) ([]Statement, error) {
 				return nil, fmt.Errorf(`an alias must be provided for the local import "%s" in "%s"`, path, p.path)
 			}
 			importParser := New()
+			importParser.importing = append(slices.Clone(p.importing), p.path)
 			importedProg, err := importParser.parse(absPath, true)
 
 			if err != nil {
